@@ -1,6 +1,6 @@
 SPECIFICATION MCSpec
 CONSTANTS
-  MaxRecs = 4
+  MaxRecs = 3
   MaxBatch = 1
   MaxOps = 6
   MaxEpoch = 1
@@ -14,11 +14,13 @@ CONSTANTS
   BigSet = {FALSE}
   MaxCleans = 1
   MaxTicks = 0
-  UseWindow = FALSE
+  UseWindow = TRUE
   UseReopen = FALSE
   UseEpochs = FALSE
   OccSet = {FALSE}
   MinCleanSegs = 1
+  UseRevReaders = TRUE
+  UseFaults = FALSE
   UseReaders = TRUE
 INVARIANTS CTypeOK C01_Ordered SegsConsistent NoEmptyInnerSegment
 PROPERTIES StepsOK
